@@ -6,7 +6,6 @@ import (
 	"fmt"
 
 	"github.com/mit-pdos/go-journal/vrt"
-	"github.com/mit-pdos/go-nfsd/nfs"
 	"github.com/mit-pdos/go-nfsd/nfstypes"
 	"github.com/zeldovich/go-rpcgen/xdr"
 	"verif/fsx"
@@ -310,7 +309,7 @@ func c11Job(raw json.RawMessage) (interface{}, error) {
 				d := vdisk.New(stImg)
 				d.Record = false
 				w := &World{Disk: d, Vars: fsx.NewVars(), Model: nil}
-				w.Srv = nfs.MakeNfs(d)
+				w.Srv = mkNfs(d)
 				if a.Warm {
 					c11Warm(w, nil)
 				}
@@ -466,7 +465,7 @@ func c11BytesJob(a c11Arg) (interface{}, error) {
 				d := vdisk.New(stImg)
 				d.Record = false
 				w := &World{Disk: d, Vars: fsx.NewVars()}
-				w.Srv = nfs.MakeNfs(d)
+				w.Srv = mkNfs(d)
 				if a.Warm {
 					c11Warm(w, nil)
 				}
